@@ -169,11 +169,17 @@ def classify(case, pred, obs):
             return "C19/%s/requestid/%s" % (c["transport"], rid_class(case))
         import re
         m = re.match(r"hops\[(\d+)\]$", parts[0])
-        dc = discard_class(obs["hops"][int(m.group(1))]["in"]) if m and int(m.group(1)) < len(obs.get("hops", [])) else ""
-        if fld != "trace":      # span / parent: the sampling options do not matter
+        hi = int(m.group(1)) if m else -1
+        dc, decision = "", False
+        if 0 <= hi < min(len(obs.get("hops", [])), len(pred.get("hops", []))):
+            dc = discard_class(obs["hops"][hi]["in"])
+            # traced where the model says untraced (or the reverse): the decision differs, span and parent only follow
+            decision = (pred["hops"][hi]["trace"] == "none") != (obs["hops"][hi]["trace"] == "none")
+        if fld != "trace" and not decision:      # span / parent: the sampling options do not matter
             return "C19/%s/trace/%s%s%s" % (c["transport"], fld, "/forwarded_metadata" if c.get("fwdmd") else "", dc)
-        return "C19/%s/trace/%s/sampling=%s%s%s" % (c["transport"], fld, c["smode"],
-                                                    c["pct"] if c["smode"] == "percent" else "", dc)
+        if dc and not dc.endswith("=none"):     # a request some pattern matches: the sampler is not consulted at all
+            return "C19/%s/trace/trace%s" % (c["transport"], dc)
+        return "C19/%s/trace/trace/sampling=%s%s%s" % (c["transport"], c["smode"], c["pct"] if c["smode"] == "percent" else "", dc)
     return "C19/%s/other" % c["transport"]
 
 
@@ -392,7 +398,8 @@ def run(ctx):
     def guard(g):
         mode, d, inv = g
         small = {"MaxHops": 2, "MaxReq": 2 if d.startswith("sampler.adaptive") else 1, "LimitMax": 2, "MaxScript": 2,
-                 "MaxDiscards": 3 if "discard" in d else 1, "Layouts": '{"plain", "rev", "dup"}', "OptHops": 2}
+                 "MaxDiscards": 3 if "discard" in d else 1, "OptHops": 2,
+                 "Layouts": '{"plain", "rev", "dup"}' if d.startswith("options.") else '{"plain"}'}
         txt = re.sub(r"(?m)^INVARIANTS.*$", "INVARIANTS " + inv, base)
         r = ctx.mc_expect_violation(MC, cfg_text=txt, consts=dict(small, Mode='"%s"' % mode, Deviations=dev(d)),
                                     label="guard-%s-%s" % (d, inv), timeout=600, workers=2)
